@@ -78,6 +78,10 @@ type vc13Resp struct {
 	// chunks and delay make complete bodies dribble (crash-point part).
 	chunks int
 	delay  time.Duration
+
+	// form is how a complete body is delimited: "" (Content-Length),
+	// "chunked" or "close" (HTTP/1.0-style, end of the connection).
+	form string
 }
 
 // vc13Plan is the behaviour of the server for one round.
@@ -94,6 +98,15 @@ type vc13Plan struct {
 	// delivered: stage is "mid" between two chunks, "hung" while a partial
 	// body hangs, "gaveup" after the client of a hanging body went away.
 	probe func(path, stage string)
+
+	// cancel, if not nil, is called when request number cancelOrd (counted
+	// from 1 within the plan) arrives or, if cancelMid is set and the body
+	// comes in pieces, after its first piece: the caller of the refresh
+	// gives up at that instant.
+	cancel    func()
+	cancelOrd int
+	cancelMid bool
+	count     int
 }
 
 // vc13Trigger describes an instant during a round: chunk number chunk of the
@@ -132,10 +145,32 @@ func (s *vc13Server) URL() (u string) { return s.srv.URL }
 
 // setPlan installs the behaviour for the next round.
 func (s *vc13Server) setPlan(resps map[string]*vc13Resp, def *vc13Resp, probe func(path, stage string)) {
+	s.setPlanCancel(resps, def, probe, nil, 0, false)
+}
+
+// setPlanCancel is like setPlan and also installs the instant at which the
+// caller of the refresh gives up.
+func (s *vc13Server) setPlanCancel(
+	resps map[string]*vc13Resp,
+	def *vc13Resp,
+	probe func(path, stage string),
+	cancel func(),
+	cancelOrd int,
+	cancelMid bool,
+) {
 	s.mu.Lock()
 	defer s.mu.Unlock()
 
-	s.plan = &vc13Plan{resps: resps, def: def, hits: map[string]int{}, release: make(chan struct{}), probe: probe}
+	s.plan = &vc13Plan{
+		resps:     resps,
+		def:       def,
+		hits:      map[string]int{},
+		release:   make(chan struct{}),
+		probe:     probe,
+		cancel:    cancel,
+		cancelOrd: cancelOrd,
+		cancelMid: cancelMid,
+	}
 }
 
 // vc13ProbeSettle gives the client a moment to consume what was flushed before
@@ -221,9 +256,31 @@ func (s *vc13Server) ServeHTTP(w http.ResponseWriter, r *http.Request) {
 		resp = p.def
 	}
 	p.hits[r.URL.Path]++
+	p.count++
+	planOrd := p.count
 	ord := s.ordinal
 	s.ordinal++
 	s.mu.Unlock()
+
+	cancelNow := p.cancel != nil && p.cancelOrd == planOrd
+	if cancelNow && !p.cancelMid {
+		p.cancel()
+		cancelNow = false
+	}
+
+	// midway is called between the pieces of a complete body.
+	midway := func(stage string) {
+		if cancelNow {
+			cancelNow = false
+			p.cancel()
+			time.Sleep(vc13ProbeSettle)
+		}
+
+		if p.probe != nil {
+			time.Sleep(vc13ProbeSettle)
+			p.probe(r.URL.Path, stage)
+		}
+	}
 
 	w.Header().Set("Server", "vc13/1.0")
 	if resp == nil {
@@ -243,14 +300,25 @@ func (s *vc13Server) ServeHTTP(w http.ResponseWriter, r *http.Request) {
 		}
 	}
 
-	if !vc13IsOK(resp.kind) && resp.kind != vc13Oversize {
+	form := resp.form
+	switch resp.kind {
+	case vc13OversizeChunked:
+		form = "chunked"
+	case vc13OversizeClose:
+		form = "close"
+	}
+
+	complete := vc13IsOK(resp.kind) || vc13IsOversize(resp.kind)
+	if !complete || form != "" {
 		s.atRequest(ord)
 	}
 
-	switch resp.kind {
-	case vc13OKNew, vc13OKSame, vc13Oversize:
-		s.writeComplete(w, r.URL.Path, p, resp, ord)
-	case vc13OversizeChunked:
+	switch {
+	case complete && form == "":
+		s.writeComplete(w, p, resp, ord, midway)
+
+		return
+	case complete && form == "chunked":
 		// No Content-Length and a flush before the end: the server uses the
 		// chunked transfer coding and terminates it properly.
 		w.Header().Set("Content-Type", "text/plain")
@@ -258,6 +326,10 @@ func (s *vc13Server) ServeHTTP(w http.ResponseWriter, r *http.Request) {
 		fl, _ := w.(http.Flusher)
 		third := (len(resp.body) + 2) / 3
 		for lo := 0; lo < len(resp.body); lo += third {
+			if lo > 0 {
+				midway("mid")
+			}
+
 			if _, err := w.Write(resp.body[lo:min(lo+third, len(resp.body))]); err != nil {
 				return
 			}
@@ -266,16 +338,32 @@ func (s *vc13Server) ServeHTTP(w http.ResponseWriter, r *http.Request) {
 				fl.Flush()
 			}
 		}
-	case vc13OversizeClose:
+
+		return
+	case complete && form == "close":
 		if c := vc13Hijack(w); c != nil {
 			_, _ = fmt.Fprintf(c, "HTTP/1.0 200 OK\r\nServer: vc13/1.0\r\nContent-Type: text/plain\r\n"+
 				"Connection: close\r\n\r\n")
-			_, _ = c.Write(resp.body)
+			half := len(resp.body) / 2
+			_, _ = c.Write(resp.body[:half])
+			if half > 0 {
+				midway("mid")
+			}
+			_, _ = c.Write(resp.body[half:])
 			if tc, ok := c.(*net.TCPConn); ok {
 				_ = tc.CloseWrite()
 			}
 			_ = c.Close()
 		}
+
+		return
+	case complete:
+		http.Error(w, "vc13: bad form", http.StatusTeapot)
+
+		return
+	}
+
+	switch resp.kind {
 	case vc13S404:
 		w.WriteHeader(http.StatusNotFound)
 		_, _ = w.Write(resp.body)
@@ -328,7 +416,7 @@ func (s *vc13Server) ServeHTTP(w http.ResponseWriter, r *http.Request) {
 
 // writeComplete sends the whole body of resp, optionally in chunks with
 // pauses.
-func (s *vc13Server) writeComplete(w http.ResponseWriter, path string, p *vc13Plan, resp *vc13Resp, ord int) {
+func (s *vc13Server) writeComplete(w http.ResponseWriter, p *vc13Plan, resp *vc13Resp, ord int, midway func(stage string)) {
 	s.mu.Lock()
 	s.inflight++
 	s.started++
@@ -362,10 +450,9 @@ func (s *vc13Server) writeComplete(w http.ResponseWriter, path string, p *vc13Pl
 		s.at(ord, i)
 
 		lo, hi := min(i*size, len(resp.body)), min((i+1)*size, len(resp.body))
-		if i > 0 && lo < len(resp.body) && p.probe != nil {
+		if i > 0 && lo < len(resp.body) {
 			// A part of the body is still to be sent.
-			time.Sleep(vc13ProbeSettle)
-			p.probe(path, "mid")
+			midway("mid")
 		}
 		if _, err := w.Write(resp.body[lo:hi]); err != nil {
 			return
